@@ -419,6 +419,12 @@ where
         &mut self,
         diff: &Diff<T>,
     ) -> StdResult<(), Self::Error> {
+        // An empty patch has no head to verify against the
+        // checkpoint so refuse it before erasing the event log
+        if diff.patch.is_empty() {
+            return Err(sos_core::Error::NoRootCommit.into());
+        }
+
         // Create a snapshot for disc-based implementations
         let snapshot = self.try_create_snapshot().await?;
         #[cfg(sos_verif)]
